@@ -39,11 +39,22 @@ def gen(rng, tier):
         focus["task_rules"] = True
     if rng.random() < (0.7 if focus["nested"] else 0.4):
         focus["tight"] = True
-    return C.maybe_from_json(rng, C.maybe_history(rng, C.forward_spec(rng, tier, focus), 0.3))
+    spec = C.maybe_from_json(rng, C.maybe_history(rng, C.forward_spec(rng, tier, focus), 0.3))
+    if spec.get("history") is None and rng.random() < 0.12:
+        ed = [rng.randint(0, 10) for _ in range(rng.randint(1, 3))]
+        if spec["cfg"].get("absence") and rng.random() < 0.6:
+            ed.append(rng.choice(spec["cfg"]["absence"]))  # a step that is registered already
+        if rng.random() < 0.4:
+            ed.append(ed[0])
+        spec["edit"] = ed
+    return spec
 
 
 def extra_candidates(spec):
-    return C.history_candidates(spec)
+    for c in C.history_candidates(spec):
+        yield c
+    for c in C.edit_candidates(spec):
+        yield c
 
 
 def used_space(st, placed):
@@ -206,4 +217,29 @@ def run(spec):
     tr = C.run_forward(spec)
     res = C.base_result(tr)
     res.nontrivial = bool(check_trace(res, tr))
+    if spec.get("edit") and tr.out.ok and getattr(tr, "history", None) is None:
+        # absence steps inserted into the finished logs: at every log index a workplace still lists a component exactly when
+        # the component's own log says it is placed there
+        from .. import director as D
+        res.count("edit_runs")
+        o = D.call(lambda: tr.project.insert_absence_time_list(list(spec["edit"])))
+        if o.ok:
+            ix = D.index(tr.project)
+            done = False
+            for c in ix.comps:
+                for i, wid in enumerate(c.placed_workplace_id_record):
+                    for wp in ix.wps:
+                        if i >= len(wp.placed_component_id_record):
+                            continue
+                        listed = c.ID in (wp.placed_component_id_record[i] or [])
+                        if listed != (wid == wp.ID):
+                            res.add("edit", "C13.after_insert_absence.component_and_workplace_logs_disagree",
+                                    "after insert_absence_time_list(%s): at log index %d component %s is logged at %r, workplace %s logs %s"
+                                    % (spec["edit"], i, c.ID, wid, wp.ID, wp.placed_component_id_record[i]), i)
+                            done = True
+                            break
+                    if done:
+                        break
+                if done:
+                    break
     return C.finish(res, tr)
